@@ -409,6 +409,7 @@ pub fn run_plan(plan: &Plan) -> Outcome {
             let cp = cp.clone();
             let (net, world) = (net.clone(), world.clone());
             let (gc, gr) = (gate_closed_rx.clone(), gate_restarted_rx.clone());
+            let tls_server = plan.server.tls;
             tasks.push(tokio::spawn(async move {
                 let mut cp = cp;
                 if cp.gate > 0 {
@@ -422,7 +423,7 @@ pub fn run_plan(plan: &Plan) -> Outcome {
                     cp.start_ms += now;
                 }
                 if cp.kind == ConnKind::H2 {
-                    crate::client_h2::run_conn_h2(net, world, sim_addr(), cp).await
+                    crate::client_h2::run_conn_h2(net, world, sim_addr(), cp, tls_server).await
                 } else if cp.kind == ConnKind::Tls {
                     crate::client_tls::run_conn_tls(net, world, sim_addr(), cp).await
                 } else {
